@@ -52,7 +52,7 @@ func (w *World) genValue(a *Account, key []byte) []byte {
 }
 
 func (w *World) genPauseFlag() []byte {
-	if !verif.Bool("pause.present") {
+	if w.Cfg.Thin || !verif.Bool("pause.present") {
 		return nil
 	}
 	return verif.Bytes("pause.flag", 2)
@@ -80,7 +80,7 @@ func (w *World) genRoleCell() []byte {
 
 // genTokenCell: absent, or an ESDigitalToken satisfying Inv.
 func (w *World) genTokenCell(a *Account, key []byte) []byte {
-	if !verif.Bool("tok.present") {
+	if !w.Cfg.Thin && !verif.Bool("tok.present") {
 		return nil
 	}
 	t := w.GenToken(key[len(TokenPrefix):])
@@ -94,7 +94,7 @@ func (w *World) GenToken(x []byte) *esdt.ESDigitalToken {
 	t := &esdt.ESDigitalToken{}
 	t.Value = verif.Int("tok.value")
 	frozen := false
-	if !w.Cfg.NoFrozenGen && verif.Bool("tok.hasProps") {
+	if !w.Cfg.NoFrozenGen && !w.Cfg.Thin && verif.Bool("tok.hasProps") {
 		t.Properties = verif.Bytes("tok.props", 2)
 		frozen = t.Properties[0]&1 != 0
 	}
@@ -109,6 +109,9 @@ func (w *World) GenToken(x []byte) *esdt.ESDigitalToken {
 		maxj := len(x)
 		if maxj > 8 {
 			maxj = 8
+		}
+		if w.Cfg.Thin {
+			maxj = 1
 		}
 		j := 1 + verif.Choose("tok.noncelen", maxj)
 		nb := x[len(x)-j:]
@@ -126,7 +129,7 @@ func (w *World) GenToken(x []byte) *esdt.ESDigitalToken {
 		m.Hash = verif.Bytes("tok.hash", fl)
 		m.Attributes = verif.Bytes("tok.attr", fl)
 		nu := 0
-		if w.Cfg.MaxURIs > 0 {
+		if w.Cfg.MaxURIs > 0 && !w.Cfg.Thin {
 			nu = verif.Choose("tok.nuris", w.Cfg.MaxURIs+1)
 		}
 		for i := 0; i < nu; i++ {
